@@ -363,6 +363,110 @@ fn main() {
         println!("{{\"events\": {}, \"traces\": {}, \"pairs_with_4_byte_prefix\": {}}}", total, pairs.len(), found4);
         return;
     }
+    if mode == "bytes" {
+        // C06: byte-level mutations of valid encodings, and random bytes, given to the decoder
+        let count: usize = arg(&args, "--count").and_then(|s| s.parse().ok()).unwrap_or(20000);
+        let mut tr = Tracer {
+            rng: StdRng::seed_from_u64(seed),
+            regs: vec![None; 4],
+            digests: HashMap::new(),
+            atoms: HashMap::new(),
+            keys: vec![("k1".into(), SymmetricKey::new()), ("k2".into(), SymmetricKey::new())],
+            nonces: HashMap::new(),
+            pool: pool(),
+            out: vec![],
+        };
+        // a corpus of valid encodings from a random walk
+        let mut corpus: Vec<Vec<u8>> = vec![];
+        for _ in 0..1500 {
+            tr.step();
+            for r in tr.regs.iter().flatten() {
+                if r.elements_count() <= 40 {
+                    corpus.push(r.tagged_cbor().to_cbor_data());
+                }
+            }
+            for i in 0..4 {
+                if tr.regs[i].as_ref().map(|e| e.elements_count() > 40).unwrap_or(false) {
+                    tr.regs[i] = None;
+                }
+            }
+        }
+        corpus.sort();
+        corpus.dedup();
+        std::panic::set_hook(Box::new(|_| {}));
+        let mut rng = StdRng::seed_from_u64(seed ^ 0xb17e5);
+        writeln!(f, "{}", json!({"op": "reset", "args": [], "dst": 0, "out": "ok", "res": ["none"], "extra": {"nreg": 1}})).unwrap();
+        total += 1;
+        for i in 0..count {
+            let base = corpus[rng.gen_range(0..corpus.len())].clone();
+            let kind = ["valid", "flip", "insert", "delete", "truncate", "random", "legacy_tag", "splice"][if i < 200 { 0 } else { rng.gen_range(1..8) }];
+            let mut b = base.clone();
+            match kind {
+                "flip" => {
+                    let p = rng.gen_range(0..b.len());
+                    b[p] ^= 1 << rng.gen_range(0..8);
+                }
+                "insert" => {
+                    let p = rng.gen_range(0..=b.len());
+                    b.insert(p, rng.gen());
+                }
+                "delete" => {
+                    let p = rng.gen_range(0..b.len());
+                    b.remove(p);
+                }
+                "truncate" => {
+                    let p = rng.gen_range(0..b.len());
+                    b.truncate(p);
+                }
+                "random" => {
+                    let n = rng.gen_range(0..40);
+                    b = (0..n).map(|_| rng.gen()).collect();
+                    if rng.gen_bool(0.5) {
+                        b.insert(0, 0xc8);
+                        b.insert(0, 0xd8);
+                    }
+                }
+                "legacy_tag" => {
+                    // rewrite one leaf tag #6.201 (d8 c9) as #6.24 (d8 18)
+                    let pos: Vec<usize> = (0..b.len().saturating_sub(1)).filter(|p| b[*p] == 0xd8 && b[*p + 1] == 0xc9).collect();
+                    if let Some(p) = pos.get(rng.gen_range(0..pos.len().max(1))) {
+                        b[*p + 1] = 0x18;
+                    }
+                }
+                "splice" => {
+                    let other = &corpus[rng.gen_range(0..corpus.len())];
+                    let p = rng.gen_range(0..b.len());
+                    let q = rng.gen_range(0..other.len());
+                    b.truncate(p);
+                    b.extend_from_slice(&other[q..]);
+                }
+                _ => {}
+            }
+            let input = b.clone();
+            let r = std::panic::catch_unwind(|| Envelope::try_from_cbor_data(input));
+            let (out, re_eq, alias_eq) = match r {
+                Err(_) => ("panic", false, false),
+                Ok(Err(_)) => ("err", false, false),
+                Ok(Ok(e)) => {
+                    let re = e.tagged_cbor().to_cbor_data();
+                    let eq = re == b;
+                    // the only tolerated alias: #6.24 read as #6.201 (try the occurrences one subset at a time)
+                    let mut alias = false;
+                    if !eq && re.len() == b.len() {
+                        let diff: Vec<usize> = (0..b.len()).filter(|p| b[*p] != re[*p]).collect();
+                        alias = !diff.is_empty() && diff.iter().all(|p| *p > 0 && b[*p] == 0x18 && re[*p] == 0xc9 && b[*p - 1] == 0xd8);
+                    }
+                    ("ok", eq, alias)
+                }
+            };
+            writeln!(f, "{}", json!({"op": "decode_bytes", "args": [kind], "dst": 0, "out": out, "res": ["none"],
+                                      "extra": {"reencode_equal": re_eq, "alias_equal": alias_eq, "len": b.len(), "hex": if out == "ok" && !re_eq && !alias_eq || out == "panic" { hex::encode(&b) } else { String::new() }}})).unwrap();
+            total += 1;
+        }
+        f.flush().unwrap();
+        println!("{{\"events\": {}, \"traces\": 1, \"corpus\": {}}}", total, corpus.len());
+        return;
+    }
     if mode == "salt" {
         // C17: envelopes of serialized size 1 B .. 100 KB, salted repeatedly and independently
         let reps: usize = arg(&args, "--reps").and_then(|s| s.parse().ok()).unwrap_or(16);
